@@ -6,6 +6,7 @@ use crate::traits::KeepAliveStream;
 use futures::Future;
 use selium_std::errors::QuicError;
 use selium_std::errors::Result;
+use selium_std::errors::SeliumError;
 use selium_std::traits::codec::{MessageDecoder, MessageEncoder};
 use std::fmt::Debug;
 
@@ -89,12 +90,14 @@ where
     ResItem: Unpin + Send + Clone,
 {
     pub async fn request(&mut self, req: ReqItem) -> Result<ResItem> {
-        let mut attempts = self.backoff_strategy.clone().into_iter();
-
         loop {
             match self.stream.request(req.clone()).await {
                 Ok(res) => return Ok(res),
-                Err(err) if is_recoverable_error(&err) => self.try_reconnect(&mut attempts).await?,
+                Err(err) if is_recoverable_error(&err) => {
+                    // Every outage gets the full number of attempts
+                    let mut attempts = self.backoff_strategy.clone().into_iter();
+                    self.try_reconnect(&mut attempts).await?
+                }
                 Err(err) => {
                     logging::keep_alive::unrecoverable_error(&err);
                     return Err(err);
@@ -123,8 +126,16 @@ where
                     logging::keep_alive::unrecoverable_error(&err);
                     return Err(err);
                 }
-                _ => self.try_reconnect(&mut attempts).await?,
+                // Being refused by the topic (e.g. another replier is still bound) is not an
+                // outage: keep counting against the same budget, so that a replier which is
+                // rejected over and over eventually gives up.
+                Err(SeliumError::OpenStream(..)) => (),
+                // The connection was lost: every outage gets the full number of attempts,
+                // however many earlier outages were survived.
+                _ => attempts = self.backoff_strategy.clone().into_iter(),
             };
+
+            self.try_reconnect(&mut attempts).await?;
         }
     }
 }
